@@ -7,7 +7,7 @@ fn margin(d: i32) -> bool { d > i32::MIN && d < i32::MAX }
 
 /// set_offset keeps the instant (day, nanoseconds) and stores the offset
 pub fn c10_dt_set_offset_instant_holds(d: i32, n: u64, o0: i32, off: i32) {
-    assume(n < NPD as u64 && valid_off(off) && valid_off(o0) && margin(d));
+    assume(n < NPD as u64); assume(off > -86_400); assume(off < 86_400); assume(o0 > -86_400); assume(o0 < 86_400); assume(margin(d));
     let a = dt(d, n, o0);
     let r = a.set_offset(Offset::Fixed(off));
     assert!(r.days == d && r.nanoseconds == n && off_secs(r.offset) == off);
@@ -16,7 +16,7 @@ pub fn c10_dt_set_offset_instant_holds(d: i32, n: u64, o0: i32, off: i32) {
 }
 /// every clock getter equals that of the instant shifted by the offset
 pub fn c10_dt_time_getters_holds(d: i32, n: u64, off: i32) {
-    assume(n < NPD as u64 && valid_off(off) && margin(d));
+    assume(n < NPD as u64); assume(off > -86_400); assume(off < 86_400); assume(margin(d));
     let r = dt(d, n, 0).set_offset(Offset::Fixed(off));
     let nod = local_nod(d, n, off);
     assert!(r.hour() as i128 == nod / 3_600_000_000_000);
@@ -30,7 +30,7 @@ pub fn c10_dt_time_getters_holds(d: i32, n: u64, off: i32) {
 }
 /// every date getter equals that of the local day (same argument to the calendar code)
 pub fn c10_dt_date_getters_holds(d: i32, n: u64, off: i32) {
-    assume(n < NPD as u64 && valid_off(off) && margin(d));
+    assume(n < NPD as u64); assume(off > -86_400); assume(off < 86_400); assume(margin(d));
     let r = dt(d, n, 0).set_offset(Offset::Fixed(off));
     let ld = Date { days: local_day(d, n, off) as i32 };
     assert!(r.year() == ld.year() && r.month() == ld.month() && r.day() == ld.day());
@@ -38,7 +38,7 @@ pub fn c10_dt_date_getters_holds(d: i32, n: u64, off: i32) {
 }
 /// as_offset keeps the displayed fields (local reading == former UTC reading) and moves the instant by -offset
 pub fn c10_dt_as_offset_holds(d: i32, n: u64, off: i32) {
-    assume(n < NPD as u64 && valid_off(off) && margin(d));
+    assume(n < NPD as u64); assume(off > -86_400); assume(off < 86_400); assume(margin(d));
     let r = dt(d, n, 0).as_offset(Offset::Fixed(off));
     assert!(r.nanoseconds < NPD as u64 && off_secs(r.offset) == off);
     assert!(inst_dt(&r) == inst(d, n) - off as i128 * NPS);
@@ -64,7 +64,7 @@ pub fn c10_offset_from_hms_holds(h: i32, m: u32, s: u32) {
 }
 /// resolve_hms returns what was given (sign carried by the hour; for |offset| < 1 h by the value itself)
 pub fn c10_offset_resolve_hms_holds(s: i32) {
-    assume(valid_off(s));
+    assume(s > -86_400); assume(s < 86_400);
     let (h, m, sec) = Offset::Fixed(s).resolve_hms();
     let mag = if s < 0 { -s } else { s };
     assert!(m as i32 == mag % 3600 / 60 && sec as i32 == mag % 60);
@@ -72,7 +72,7 @@ pub fn c10_offset_resolve_hms_holds(s: i32) {
     assert!(Offset::Fixed(s).resolve() == s);
 }
 pub fn c10_offset_hms_roundtrip_holds(h: i32, m: u32, s: u32) {
-    assume(h >= -23 && h <= 23 && m <= 59 && s <= 59);
+    assume(h >= -23); assume(h <= 23); assume(m <= 59); assume(s <= 59);
     match Offset::from_hms(h, m, s) {
         Ok(o) => { let (h2, m2, s2) = o.resolve_hms(); assert!(h2 == h && m2 == m && s2 == s); }
         Err(_) => assert!(false),
@@ -80,7 +80,7 @@ pub fn c10_offset_hms_roundtrip_holds(h: i32, m: u32, s: u32) {
 }
 // ---- Time
 pub fn c10_time_set_offset_holds(n: u64, o0: i32, off: i32) {
-    assume(n < NPD as u64 && valid_off(off) && valid_off(o0));
+    assume(n < NPD as u64); assume(off > -86_400); assume(off < 86_400); assume(o0 > -86_400); assume(o0 < 86_400);
     let r = tm(n, o0).set_offset(Offset::Fixed(off));
     assert!(r.nanoseconds == n && off_secs(r.offset) == off && off_secs(r.get_offset()) == off);
     let nod = fmod128(n as i128 + off as i128 * NPS, NPD);
@@ -88,7 +88,7 @@ pub fn c10_time_set_offset_holds(n: u64, o0: i32, off: i32) {
     assert!(r.milli() as i128 == nod % NPS / 1_000_000 && r.micro() as i128 == nod % NPS / 1_000 && r.nano() as i128 == nod % NPS);
 }
 pub fn c10_time_as_offset_holds(n: u64, off: i32) {
-    assume(n < NPD as u64 && valid_off(off));
+    assume(n < NPD as u64); assume(off > -86_400); assume(off < 86_400);
     let r = tm(n, 0).as_offset(Offset::Fixed(off));
     assert!(r.nanoseconds < NPD as u64 && off_secs(r.offset) == off);
     assert!(r.nanoseconds as i128 == fmod128(n as i128 - off as i128 * NPS, NPD));
